@@ -349,7 +349,7 @@ def ns_pivot_ob(tier):
 
 def ns_whole_obs(tier, which):
     q = tier == "quick"
-    grid = [(3, 3), (4, 4)] if q else [(3, 3), (4, 4), (4, 5), (5, 5)]
+    grid = [(3, 3), (4, 4)] if q else [(3, 3), (4, 4), (4, 5), (5, 4)]
     out = []
     if "feasible" in which:
         out.append(dict(name="ns-whole-feasible", pkg="internal/phase2", func="Harness_NS_Feasible", consts={}, cubes=dag_cubes(grid), enctimeout=90, qtimeout=60, loop=64,
